@@ -22,3 +22,4 @@ def run(ck):
     factors.r10f_simd_fetchers(ck, P, 'C10-R8')
     codec.r9_float_widening_format(ck, P)
     codec.r10_accessor_presence(ck, P)
+    codec.r11_yuy2_siblings(ck, P)
